@@ -239,6 +239,16 @@ fn gen_sgr(rng: &mut Rng, out: &mut String) {
         let j = rng.below(i as u64 + 1) as usize;
         codes.swap(i, j);
     }
+    // now and then an effect is switched off again inside the same sequence (SGR 22-29), before or after the codes that
+    // switch things on (the colour resets 39 / 49 are not used: the segmenter does not implement them, which is outside
+    // the statement's domain of "reset + effects + 16-colour codes")
+    if rng.chance(1, 5) {
+        for _ in 0..rng.range(1, 2) {
+            let off = *rng.pick(&[22u32, 23, 24, 25, 27, 28, 29]);
+            let at = rng.below(codes.len() as u64 + 1) as usize;
+            codes.insert(at, off);
+        }
+    }
     out.push_str("\x1b[0");
     for c in codes {
         out.push_str(&format!(";{c}"));
